@@ -145,11 +145,21 @@ func ParseField(sf reflect.StructField) FieldInfo {
 	return fi
 }
 
+// BS prints a byte string: as a Coq string literal when it is printable ASCII.
+func BS(s string) string {
+	for i := 0; i < len(s); i++ {
+		if s[i] < 0x20 || s[i] > 0x7e || s[i] == '"' {
+			return hx.Str(s)
+		}
+	}
+	return `(bs "` + s + `")`
+}
+
 func optBytes(s string) string {
 	if s == "" {
 		return "None"
 	}
-	return hx.Some(hx.Str(s))
+	return hx.Some(BS(s))
 }
 
 func nats(xs []int) string {
@@ -161,7 +171,7 @@ func nats(xs []int) string {
 }
 
 func finfoTerm(goName string, exported, embedded bool, fi FieldInfo) string {
-	return hx.App("mkF", hx.Str(goName), hx.B(exported), hx.B(embedded), optBytes(fi.TagName),
+	return hx.App("mkF", BS(goName), hx.B(exported), hx.B(embedded), optBytes(fi.TagName),
 		hx.B(fi.Skip), hx.B(fi.OmitEmpty), hx.B(fi.Quoted))
 }
 
